@@ -93,8 +93,14 @@ def beBytes : Nat → Nat → Bytes
 
 def beVal (b : Bytes) : Nat := b.foldl (fun acc x => acc * 256 + x.toNat) 0
 
-def splitAt? (k : Nat) (bs : Bytes) : Option (Bytes × Bytes) :=
-  if bs.length < k then none else some (bs.take k, bs.drop k)
+/-- `read_exact` of `k` bytes: the first `k` bytes and the rest, `none` at EOF (linear in `k`) -/
+def splitAt? : Nat → Bytes → Option (Bytes × Bytes)
+  | 0, bs => some ([], bs)
+  | _+1, [] => none
+  | k+1, x :: r =>
+    match splitAt? k r with
+    | none => none
+    | some (a, r') => some (x :: a, r')
 
 /-- read up to and excluding the first NUL; `none` if there is no NUL (`read_exact` hits EOF) -/
 def splitNul : Bytes → Option (Bytes × Bytes)
